@@ -5,6 +5,7 @@ Each prompt carries only the property text and the one-line descriptions of chan
 tried for it (so that a new, different mechanism is asked for) - nothing about the checks."""
 import json, sys, os, glob, subprocess
 out, props = sys.argv[1], sys.argv[2].split(',')
+hint = sys.argv[3] if len(sys.argv) > 3 else None
 P = {}
 for l in open('/verif/properties.jsonl'):
     d = json.loads(l); P[d['id']] = d
@@ -27,5 +28,9 @@ for p in props:
     txt = T.replace('@ID@', p).replace('@WT@', wt).replace('@OUT@', f'{out}/{p}') \
            .replace('@TITLE@', d['title']).replace('@TEXT@', d.get('statement') or d.get('text')) \
            .replace('@QUANT@', str(q)).replace('@TRIED@', '; '.join(names))
+    if hint:
+        i = txt.index('Prefer a defect made of TWO')
+        j = txt.index('Keep it small')
+        txt = txt[:i] + hint + '\n\n' + txt[j:]
     open(f'{out}/{p}/prompt.txt', 'w').write(txt)
     print(p, 'prompt written,', len(names), 'earlier ideas listed')
